@@ -18,11 +18,11 @@ pub fn space_for(tier: Tier) -> Space {
     let mut s = Space::new();
     match tier {
         Tier::Quick => {
-            s.tok("T", &gen::T_FULL, 3, 2048).tok("T0", &gen::T_CORE, 4, 2048).tok("TU", &gen::T_UNI, 3, 2048);
+            s.tok("T", &gen::T_FULL, 3, 2048).tok("T0", &gen::T_CORE, 4, 2048).tok("TU", &gen::T_UNI, 3, 2048).tok("TQ", &gen::T_QUANT, 5, 2048).tok("TG", &gen::T_GROUP, 6, 2048).tok("TX", &gen::T_XCLS, 4, 2048);
             s.ast("K", 4, 512).ast("Q", 3, 512).ast("CL", 3, 512).ast("G", 4, 512).ast("AN", 4, 512);
         }
         Tier::Thorough => {
-            s.tok("T", &gen::T_FULL, 4, 4096).tok("T0", &gen::T_CORE, 5, 4096).tok("TU", &gen::T_UNI, 4, 4096);
+            s.tok("T", &gen::T_FULL, 4, 4096).tok("T0", &gen::T_CORE, 5, 4096).tok("TU", &gen::T_UNI, 4, 4096).tok("TQ", &gen::T_QUANT, 6, 4096).tok("TG", &gen::T_GROUP, 7, 4096).tok("TX", &gen::T_XCLS, 5, 4096);
             s.ast("K", 5, 512).ast("Q", 4, 512).ast("CL", 4, 512).ast("G", 5, 512).ast("AN", 5, 512).ast("CI", 4, 512).ast("U", 4, 512);
         }
     }
@@ -76,6 +76,7 @@ fn edit_cases() -> Vec<String> {
     let bases = [
         "[a-[b]]", "[a-c-[b]]", "[^a-[b]]", "[a-[b-[c]]]", "x[a-[b]]y", "([a-[b]])", "[a-[b]]|c", "(?:[^a-[b]]|c)d", "(a*){2,3}", "(a|){1,2}b", "^{1,2}a",
         "a${2,3}", "(a?){1,4}?b", "(a)\\1{2}", "(?:a(b))\\2", "\\p{Lu}+", "[\\p{L}-[\\p{Lu}]]", "a{2,}?b",
+        "\\p{IsBasicLatin}", "\\P{IsGreek}", "[\\p{IsLatin-1Supplement}a]", "(?:a)(b)\\2", "(a)(?:b\\1)", "(?:a|(b))\\1",
     ];
     let subs = [']', '[', '-', '(', ')', '{', '}', ',', '?', '\\', 'a', '2', '0'];
     let mut v = vec![];
@@ -94,6 +95,11 @@ fn edit_cases() -> Vec<String> {
                     r[k] = s;
                     v.push(r.iter().collect::<String>());
                 }
+            }
+            for ins in ['_', ' ', '-', '('] {
+                let mut r = cs.clone();
+                r.insert(k, ins);
+                v.push(r.iter().collect::<String>());
             }
             if k + 1 < cs.len() {
                 let mut sw = cs.clone();
